@@ -6,11 +6,21 @@ Import ListNotations.
 Definition exn_code (e : exn) : nat :=
   match e with ValueE => 1 | TypeE => 2 | KeyE => 3 | IndexE => 4 | NotImplE => 5 | OtherE => 6 end.
 
+(* numpy's argsort does not specify the order of equal keys (the vectorised sort it uses for 64-bit keys on x86 is not
+   stable). Equal change counts occur only among dimensions of size 1 (C09 theorem so_filter), so two orders / label lists are
+   accepted as equal when they agree everywhere except at positions whose size is 1, and are permutations of each other.
+   Shapes and data are always compared exactly: moving size-1 axes among themselves changes neither. *)
+Definition eq_mod_unit_ties (sizes l1 l2 : list nat) : bool :=
+  Nat.eqb (length l1) (length l2)
+  && forallb (fun i => Nat.eqb (nth i l1 0) (nth i l2 0) || Nat.eqb (nth i sizes 0) 1) (seq 0 (length l1))
+  && forallb (fun x => existsb (Nat.eqb x) l2) l1 && forallb (fun x => existsb (Nat.eqb x) l1) l2.
+
 (* get_sort_order / get_dimensionality on a raw matrix: (matrix, obs order, obs sizes (in that order)) *)
 Definition case09s := (list (list nat) * list nat * list nat)%type.
 Definition check09s (c : case09s) : bool :=
   let '(m, oo, od) := c in
-  nat_list_eqb (get_sort_order m) oo && nat_list_eqb (get_dimensionality m (get_sort_order m)) od.
+  let md := get_dimensionality m (get_sort_order m) in
+  eq_mod_unit_ties md (get_sort_order m) oo && nat_list_eqb md od.
 
 (* reshape_to_n_dims: (N, M, pos, spec, sort_dims, obs code, obs shape, obs ids, obs labels) ; main[r][c] = r*M + c *)
 Definition mk_main (N M : nat) : list (list nat) := map (fun r => map (fun c => r * M + c) (seq 0 M)) (seq 0 N).
@@ -19,7 +29,7 @@ Definition check01 (c : case01) : bool :=
   let '(N, M, pos, spec, sd, ocode, oshape, odata, olabs) := c in
   match to_nd 0 (mk_main N M) pos spec sd with
   | Err e => Nat.eqb ocode (exn_code e)
-  | Ok (a, labs) => Nat.eqb ocode 0 && nat_list_eqb (nd_shape a) oshape && nat_list_eqb (nd_data a) odata && nat_list_eqb labs olabs
+  | Ok (a, labs) => Nat.eqb ocode 0 && nat_list_eqb (nd_shape a) oshape && nat_list_eqb (nd_data a) odata && eq_mod_unit_ties (nd_shape a) labs olabs
   end.
 
 (* USIDataset views: (N, M, pos, spec, sort_dims at construction, number of toggles, obs labels, obs sizes, obs shape, obs ids) *)
@@ -30,7 +40,7 @@ Definition check01v (c : case01v) : bool :=
   | Err _ => false
   | Ok v0 =>
     let v := Nat.iter toggles view_toggle v0 in
-    nat_list_eqb (view_labels v) olabs && nat_list_eqb (view_sizes v) osizes &&
+    eq_mod_unit_ties (view_sizes v) (view_labels v) olabs && nat_list_eqb (view_sizes v) osizes &&
     nat_list_eqb (nd_shape (view_form v)) oshape && nat_list_eqb (nd_data (view_form v)) odata
   end.
 
